@@ -7,7 +7,11 @@ Four case kinds:
   styles - sequences of TableStyle factory calls and border customisations on the real objects; the
            border fields of every created style compared with the Lean heap model
   hist   - sequences (2-6) of command lines on ONE default-config application vs fresh applications
-           (status, both streams, handler arguments), in the same process
+           (status, both streams, handler arguments), in the same process.  Every handler shows, in what it writes, the
+           state of the I/O object it was given (tagged text with predefined and private tags, lines at every verbosity,
+           both streams, the indentation); the handler of the `tweak` command CHANGES the I/O objects it was given through
+           their public setters (formatter styles added / a predefined one restyled, another formatter, verbosity, quiet,
+           interaction, indentation, terminal dimensions): the I/O of a run belongs to that run
   twice  - components rendered twice (tables with every predefined style, help pages, error traces)
 """
 from harness import app_common as ac
@@ -22,7 +26,8 @@ REQUIRED_THEOREMS = ["Clikit.Props.C17." + n for n in (
     "styles_wf_decides", "refs_fresh", "refs_fresh_source", "style_noninterference_dec", "style_noninterference_after",
     # history independence on the stateful composed application model (Model/AppState.lean)
     "app_run_restores_state", "app_run_keeps_configured", "app_run_stateless", "app_history_results",
-    "app_run_history_independent", "app_reused_eq_fresh", "d21_protocol_history_dependent")]
+    "app_run_history_independent", "app_reused_eq_fresh", "d21_protocol_history_dependent",
+    "app_io_of_tokens", "app_io_history_independent")]
 TECHNIQUE = ("Lean 4 theorems over the two hidden-state protocols read from the source on every run (help resolver's "
              "leniency save/restore, table-style factories copying cached border styles) + C05 for the parser; differential "
              "histories on one real application vs fresh ones, style construction orders, render-twice")
@@ -50,7 +55,9 @@ LEVEL_TEXT = ("How HelpResolver.create_resolved_command restores the leniency it
               "changes the next run (d21_protocol_history_dependent). The stateful model is run through every generated history "
               "(entry c17.app_hist, on the tree, settings and parser wiring read from the real application) and compared with the "
               "runs of the real REUSED application: status, what happened, the command and arguments selected, the handler calls "
-              "with their arguments, and the _lenient_args_parsing of every command's config after every run.")
+              "with their arguments, the I/O configuration every handler finds on entry (app_io_history_independent: decided by the "
+              "tokens of that line alone, whatever earlier runs and their handlers did to THEIR I/O), and the "
+              "_lenient_args_parsing of every command's config after every run.")
 LEVEL_NOTE = ("Trusted: Lean kernel + standard axioms; tools/genparts/c17.py (AST matching of the try/finally and of the "
               "factories); the hand-written state model (only leniency + parser scratch + border heap are modelled: other "
               "state would be invisible to the theorems and is looked for by the history runs); harness. Render-twice "
@@ -60,7 +67,10 @@ LEVEL_NOTE = ("Trusted: Lean kernel + standard axioms; tools/genparts/c17.py (AS
 RULE = ("proto: 3 settings x inner ok/raises (exhaustive); styles: all op sequences of length <= 3 (quick) / 4 (thorough) over "
         "4 factories + customisations, plus random to length 8; hist: generated trees + a fixed probe command, sequences of "
         "2-6 lines from {valid, too many arguments, unknown option, unconvertible value, help in both spellings (also "
-        "combined with a failing value), version, unknown command}, each also run through the stateful composed model; "
+        "combined with a failing value), version, unknown command, `tweak <what>...` whose handler changes the I/O objects "
+        "it was given (formatter styles, formatter, verbosity, quiet, interaction, indentation, terminal dimensions), lines "
+        "with --ansi / -v / -vv / -q}, every handler writing tagged and verbosity-flagged lines to both streams; each "
+        "history is also run through the stateful composed model; "
         "twice: tables x 4 styles, help pages, traces; "
         "non-trivial = styles/hist cases of length >= 2; distinct = the case")
 TRUSTED_BASE = [
@@ -86,6 +96,10 @@ ASSUMPTIONS = [
     "`lenient` command (configured True) and the shared parser object (`shared_parser`) are modelled, nothing is excluded; "
     "the error class of a failing run and the help page shown are not compared here (c09.app_run / C13 do), the scratch "
     "dictionaries of the real parser object are not read (results only, as C05)",
+    "handlers that change the I/O objects they were given: the model has no I/O state that outlives a run (create_io builds "
+    "the I/O of a run from its tokens; compared on entry of every handler), the formatter's style set is not modelled - that "
+    "nothing a handler did to its I/O shows in a later run is judged by the oracle (reused vs fresh output), not proved; "
+    "what a handler does to objects that are NOT per run (the application's config, its style set) is outside",
 ]
 BATCH = 400
 
@@ -107,6 +121,13 @@ def _style_ops(rng, n):
     return ops
 
 
+# what the handler of `tweak` does to the I/O objects it was given (public setters only): style, restyle, formatter,
+# verbose, silent, quiet, batch, indent, narrow (see _Tweak).  Lines whose handler changes its I/O, and lines that show the I/O state of a run in colour / at other verbosities
+IO_LINES = [["tweak", "style"], ["tweak", "restyle"], ["tweak", "restyle", "--ansi"], ["tweak", "formatter"],
+            ["tweak", "verbose"], ["tweak", "silent"], ["tweak", "quiet"], ["tweak", "batch"], ["tweak", "indent"],
+            ["tweak", "narrow"],
+            ["tweak", "style", "verbose", "indent"], ["tweak"], ["probe", "1", "--ansi"], ["probe", "1", "-vv"],
+            ["probe", "1", "2", "3", "--ansi"], ["-h", "--ansi"], ["probe", "1", "-q"]]
 LINES = [["probe", "1"], ["probe", "1", "2", "3"], ["probe", "--nope"], ["probe", "--count=abc", "1"],
          ["probe", "--count=abc", "-h"], ["probe", "-h"], ["help", "probe"], ["--version"], ["nosuch"],
          ["probe", "--count=5", "1"], ["lenient", "a", "b", "c"], ["lenient", "-h"], ["help", "lenient"], ["-h"],
@@ -138,6 +159,12 @@ def generate(tier, rng):
         tree = ac.gen_tree(rng, max_depth=2, fanout=2, opts_by_depth=OPTS)
         tree["global_flag"] = False
         lines = [rng.choice(LINES) for _ in range(rng.randint(2, 6))]
+        yield {"k": "hist", "tree": tree, "lines": lines, "shared_parser": rng.random() < 0.4}
+    # histories in which handlers change the I/O objects they were given (the `tweak` command) between ordinary lines
+    for _ in range(100 if tier == "quick" else 2500):
+        tree = ac.gen_tree(rng, max_depth=2, fanout=2, opts_by_depth=OPTS)
+        tree["global_flag"] = False
+        lines = [rng.choice(IO_LINES) if rng.random() < 0.6 else rng.choice(LINES) for _ in range(rng.randint(2, 6))]
         yield {"k": "hist", "tree": tree, "lines": lines, "shared_parser": rng.random() < 0.4}
     for _ in range(40 if tier == "quick" else 400):
         yield {"k": "twice", "seed": rng.randrange(10 ** 6)}
@@ -199,11 +226,33 @@ def _styles(case):
 CALLS = []
 
 
+def _io_seen(io):
+    """the I/O configuration a handler finds on entry (plain buffered streams: `auto` selects the plain formatter
+    there, so only `forced` is visible of the ANSI mode)"""
+    from clikit.formatter.ansi_formatter import AnsiFormatter
+    f = io.output.formatter
+    return {"forced": isinstance(f, AnsiFormatter) and bool(f.force_ansi()), "verbosity": io.verbosity,
+            "quiet": io.is_quiet(), "interactive": io.is_interactive()}
+
+
+def _show_io(io):
+    """lines in which the state of the I/O object of this run is visible: predefined and private tags on both streams,
+    every verbosity, the indentation, the terminal width"""
+    from clikit.api.io.flags import DEBUG, VERBOSE, VERY_VERBOSE
+    io.write_line("<info>info</info> <comment>comment</comment> <brand>brand</brand> <hl>hl</hl> <b>b</b> plain")
+    io.write_line("verbose <info>line</info>", VERBOSE)
+    io.write_line("very verbose <brand>line</brand>", VERY_VERBOSE)
+    io.write_line("debug line", DEBUG)
+    io.error_line("<error>error</error> <brand>brand</brand> <warning>warning</warning>")
+    io.write_line("width %d, interactive %s" % (io.terminal_dimensions.width, io.is_interactive()))
+
+
 class _H(object):
     def __init__(self, path):
         self.path = path
 
     def handle(self, args, io, command):
+        seen = _io_seen(io)
         # a handler reads its arguments every way the API offers (set values, full listings with defaults, by name)
         CALLS.append([list(self.path), sorted((k, repr(v)) for k, v in args.arguments(False).items()),
                       sorted((k, repr(v)) for k, v in args.options(False).items()),
@@ -212,9 +261,56 @@ class _H(object):
                       sorted((k, repr(args.option(k)), args.is_option_set(k)) for k in args.options())])
         # appended for the composed model (c17.app_hist): the SET arguments / options in the canonical encoding
         CALLS[-1].append({"args_set": sorted([[k, pc.enc(v)] for k, v in args.arguments(False).items()]),
-                          "opts_set": sorted([[k, pc.enc(v)] for k, v in args.options(False).items()])})
+                          "opts_set": sorted([[k, pc.enc(v)] for k, v in args.options(False).items()]),
+                          "io": seen})
+        self.before(args, io)
         io.write_line("ran " + " ".join(self.path))
+        _show_io(io)
         return 0
+
+    def before(self, args, io):
+        pass
+
+
+class _Tweak(_H):
+    """a handler that CHANGES the I/O objects it was given, through their public setters, before it writes: the I/O of
+    a run is created for that run, so nothing of this may show in a later run"""
+
+    def before(self, args, io):
+        from clikit.api.formatter import Style
+        from clikit.api.formatter.style_set import StyleSet
+        from clikit.api.io.flags import DEBUG
+        from clikit.formatter.ansi_formatter import AnsiFormatter
+        from clikit.formatter.plain_formatter import PlainFormatter
+        from clikit.ui.rectangle import Rectangle
+        for what in args.argument("what") or []:
+            if what == "style":
+                # private tags, on the formatter of each output
+                io.formatter.add_style(Style("brand").fg("magenta").bold())
+                io.error_output.formatter.add_style(Style("brand").fg("magenta"))
+                io.output.formatter.add_style(Style("hl").bg("yellow"))
+            elif what == "restyle":
+                # a predefined tag looks different in this run
+                io.formatter.add_style(Style("info").fg("red").underlined())
+                io.error_output.formatter.add_style(Style("error").fg("black").bg("white"))
+            elif what == "formatter":
+                ss = StyleSet()
+                ss.add(Style("brand").fg("cyan"))
+                ss.add(Style("info").fg("blue"))
+                io.set_formatter(AnsiFormatter(ss, True) if isinstance(io.formatter, PlainFormatter) else PlainFormatter(ss))
+            elif what == "verbose":
+                io.set_verbosity(DEBUG)
+            elif what == "silent":
+                io.error_output.set_quiet(True)
+            elif what == "quiet":
+                io.set_quiet(True)
+            elif what == "batch":
+                io.set_interactive(False)
+            elif what == "indent":
+                io.indent(3)
+                io.error_output.increment_indent(2)
+            elif what == "narrow":
+                io.set_terminal_dimensions(Rectangle(33, 7))
 
 
 class _Counting(object):
@@ -245,6 +341,10 @@ def _new_app(tree, shared_parser=False):
     k = config.create_command("counter")
     k.add_argument("a", Argument.OPTIONAL)
     k.set_handler(lambda: _Counting())
+    # a command whose handler changes the I/O objects it was given (its arguments say how)
+    t = config.create_command("tweak")
+    t.add_argument("what", Argument.OPTIONAL | Argument.MULTI_VALUED)
+    t.set_handler(_Tweak(("tweak",)))
     if shared_parser:
         # one parser object installed for several commands (Config.set_args_parser)
         from clikit.args.default_args_parser import DefaultArgsParser
@@ -252,7 +352,7 @@ def _new_app(tree, shared_parser=False):
         p.set_args_parser(shared)
         l.set_args_parser(shared)
     tree = dict(tree)
-    tree["commands"] = [c for c in tree["commands"] if c["name"] not in ("probe", "lenient", "help")]
+    tree["commands"] = [c for c in tree["commands"] if c["name"] not in ("probe", "lenient", "help", "counter", "tweak")]
     return ac.build_app(tree, config=config, handler_for=lambda path: _H(path), catch=True)
 
 
@@ -376,6 +476,8 @@ def _hist_view(obs):
                      "invoked_probed": _invoked_of(r),
                      "kind": _kind_of(r),
                      "selected": {"ok": r["selected"]} if r["selected"] is not None else "err",
+                     # the I/O configuration every recording handler found on entry (reused and probed application)
+                     "io_seen": [c[-1]["io"] for c in r0["calls"]], "io_seen_probed": [c[-1]["io"] for c in r["calls"]],
                      "len": r["len"], "restored": r["len"] == t["configured"]})
     return {"runs": runs}
 
@@ -513,6 +615,11 @@ def _sel(o):
     return {"path": o["path"], "args_set": sorted(o["args_set"]), "opts_set": sorted(o["opts_set"])}
 
 
+def _run_io(io):
+    return {"forced": io["ansi"] == "forced", "verbosity": io["verbosity"], "quiet": io["quiet"],
+            "interactive": io["interactive"]}
+
+
 def _hist_model_view(answer):
     runs = []
     for r in answer:
@@ -520,6 +627,9 @@ def _hist_model_view(answer):
         runs.append({"status": r["status"], "status_probed": r["status"], "invoked": inv, "invoked_probed": inv,
                      "kind": r["what"]["kind"],
                      "selected": {"ok": _sel(r["selected"]["ok"])} if "ok" in r["selected"] else "err",
+                     # create_io of THIS line, for every invoked handler that records (`counter` does not)
+                     "io_seen": [_run_io(r["io"]) for x in inv if x["path"] != ["counter"]],
+                     "io_seen_probed": [_run_io(r["io"]) for x in inv if x["path"] != ["counter"]],
                      "len": r["len"], "restored": r["restored"]})
     return {"runs": runs}
 
@@ -619,7 +729,8 @@ def nontrivial_key(case, obs):
 
 def bucket(case, obs):
     if case["k"] == "hist":
-        return "hist|len=%d" % len(case["lines"])
+        tw = any(l and l[0] == "tweak" for l in case["lines"])
+        return "hist|len=%d%s" % (len(case["lines"]), "|handler changes its I/O" if tw else "")
     if case["k"] == "styles":
         return "styles|len=%d" % len(case["ops"])
     return case["k"]
